@@ -178,6 +178,15 @@ func (c *Crew) SetMachine(ctx context.Context, mid string, src *crew.SpecSource,
 		}
 
 		c.Machines[mid] = m
+
+		if ch, pending := c.changed[mid]; pending && ch.Deleted {
+			// The machine was deleted since the last report
+			// and is now created again: report what it is
+			// now (a store might still hold the old record)
+			// instead of the deletion.
+			ch.Deleted = false
+			ch.State = m.State.Copy()
+		}
 	} else if state != nil {
 		// Replace the state of the existing machine (we report
 		// the new state below, so we had better have it).
